@@ -6,7 +6,9 @@ Plan (JSON-able; all delays in units of simloop.U = 2**-10 s, overshoots in unit
      "overshoots": [int...],                   one per clock jump, then 0
      "client": {"reads": [[delay, item]...], "drains": [[delay, outcome]...], "eof_err": bool},
      "connects": [{"delay", "outcome", "reads", "drains", "eof_err", "close_err"}...],   n-th open_connection call
-     "hooks": [[duration, kill]...],           n-th hook handled by the (stub) addon manager
+     "hooks": [[duration, kill, hold]...],     n-th hook handled by the (stub) addon manager: the hook function takes
+                                               `duration`; if the hook carries a flow (hooks started by the layer) the
+                                               addon then intercepts it and it is resumed after `hold`
      "reactions": [[action...]...],            n-th event delivered to the layer -> commands it returns
      "eager": bool,                            eager task start (as under Master.run) or asyncio's default lazy start
      "client_udp": bool}                       the client connection is a UDP "connection" (no half-close, 20 s timeout)
@@ -30,7 +32,8 @@ from dataclasses import dataclass
 import simloop
 from simloop import U
 
-from mitmproxy import connection
+from mitmproxy import connection, http
+from mitmproxy import flow as mflow
 from mitmproxy.connection import ConnectionState
 from mitmproxy.proxy import commands, events, mode_servers, mode_specs, server_hooks
 
@@ -74,6 +77,7 @@ class World:
         self.nevents = 0
         self.handler = None
         self.returned = False
+        self.hook_k = {}  # id(hook command) -> index of the hook call
         self.task_server = {}  # open_connection task -> server index
         self.net.on_call = self._on_call
 
@@ -99,8 +103,11 @@ class World:
         k = self.nhooks
         self.nhooks += 1
         hooks = self.plan.get("hooks", ())
-        dur, kill = hooks[k] if k < len(hooks) else (0, False)
+        spec = hooks[k] if k < len(hooks) else (0, False)
+        dur, kill = spec[0], spec[1]
+        hold = spec[2] if len(spec) > 2 else 0
         (data,) = hook.args()
+        self.hook_k[id(hook)] = k
         idx = None
         if isinstance(data, server_hooks.ServerConnectionHookData):
             idx = self.conn_index(data.server)
@@ -115,10 +122,20 @@ class World:
                     data.server.error = "killed by addon"
             if dur:
                 await asyncio.sleep(dur * U)
+            if hold and isinstance(data, mflow.Flow):
+                # an addon intercepts the flow; "the user" resumes it after `hold`.  The hook stays pending for the
+                # handler until then (handle_hook awaits flow.wait_for_resume() after the addons have run)
+                data.intercept()
+                self.log("intercept", hook.name, idx, k)
+                self.loop.call_later(hold * U, self._resume, data, hook.name, idx, k)
             self.net.after_point(kind)
             completed = True
         finally:
             self.log("hook_end", hook.name, idx, k, completed)  # completed=False: the awaiting task was cancelled
+
+    def _resume(self, flow, name, idx, k):
+        self.log("resume", name, idx, k)
+        flow.resume()
 
     # ---- scripted layer: `layer.handle_event(event)`
     def handle_event(self, event):
@@ -159,7 +176,7 @@ class World:
                         out.append(commands.CloseConnection(c))
                     self.log("cmd", "close", self.conn_index(c), bool(a[2]))
             elif op == "hook":
-                h = SimScriptedHook(k)
+                h = SimScriptedHook(http.HTTPFlow(self.handler.client, connection.Server(address=None), live=True))
                 h.blocking = bool(a[1])
                 h.tainted = client_gone  # e.g. an error hook: its completion does not lead to new connections either
                 out.append(h)
@@ -182,6 +199,18 @@ class Handler(mode_servers.ProxyConnectionHandler):
     async def on_timeout(self):
         self.world.log("timeout")
         await super().on_timeout()
+
+    async def handle_hook(self, hook):
+        # the real ProxyConnectionHandler.handle_hook; only its completion is recorded (for a flow hook that is after
+        # the addons have run AND the flow is no longer intercepted)
+        try:
+            await super().handle_hook(hook)
+        finally:
+            w = self.world
+            k = w.hook_k.pop(id(hook), None)
+            (data,) = hook.args()
+            idx = w.conn_index(data.server) if isinstance(data, server_hooks.ServerConnectionHookData) else None
+            w.log("hook_done", hook.name, idx, k)
 
     async def open_connection(self, command):
         self.world.task_server[asyncio.current_task()] = self.world.conn_index(command.connection)
@@ -305,7 +334,7 @@ def decode_plan(data, max_timeout=3, max_conn=9):
     client = {"reads": reads(5), "drains": drains(3), "eof_err": t.flag()}
     connects = [{"delay": delay(), "outcome": t.pick(_CONNECT), "reads": reads(3), "drains": drains(2),
                  "eof_err": t.flag(), "close_err": t.flag()} for _ in range(t.below(max_conn + 1))]
-    hooks = [[delay() if t.flag(1, 2) else 0, t.flag()] for _ in range(t.below(15))]
+    hooks = [[delay() if t.flag(1, 2) else 0, t.flag(), delay() if t.flag(1, 3) else 0] for _ in range(t.below(15))]
     reactions = []
     for _ in range(t.below(11)):
         m = t.byte()
